@@ -806,10 +806,20 @@ def annotated_loop(ex, node, spec, it=None):
     n = None
     if is_for:
         if isinstance(it, RangeVal):
-            if it.step != 1:
-                raise Unsupported('annotated for over range with step')
-            n = ex.range_len(it)
-            elem = lambda k: mk_int(zint(it.start) + zint(k))   # noqa
+            if isinstance(it.step, int) and it.step == 1:
+                n = ex.range_len(it)
+                elem = lambda k: mk_int(zint(it.start) + zint(k))   # noqa
+            else:
+                # stepped range: the trip count n is characterised (nonlinear) by
+                # start + (n-1)*step < stop <= start + n*step for a positive step
+                if not ex.branch(mk_bool(zint(it.step) > 0)):
+                    raise Unsupported('annotated for over range with non-positive step')
+                n = ex.fresh_int('range!n', 0, None)
+                zs, ze, zst = zint(it.start), zint(it.stop), zint(it.step)
+                ex.assume(mk_bool(z3.If(zs >= ze, zint(n) == 0,
+                                        z3.And(zint(n) >= 1, zs + (zint(n) - 1) * zst < ze,
+                                               zs + zint(n) * zst >= ze))))
+                elem = lambda k: mk_int(zint(it.start) + zint(k) * zint(it.step))   # noqa
         elif isinstance(it, SList):
             n = ex.seq_len(it)
             snap = deep_copy(it, {})
